@@ -559,7 +559,7 @@ func TestC06(t *testing.T) {
 		c.Note = fmt.Sprintf("%+v", st)
 		rec.Eval(1)
 		rec.Class("variant/" + mt.Info.Variant)
-		for name, n := range map[string]int{"permuted": st.permuted, "repacked": st.repacked, "split-run": st.splitRun, "dup-scalar": st.dupScalar, "split-message": st.splitMsg,
+		for name, n := range map[string]int{"permuted": st.permuted, "repacked": st.repacked, "split-run": st.splitRun, "dup-scalar": st.dupScalar, "split-message": st.splitMsg, "explicit-default": st.explicitDefault,
 			"map-swapped": st.mapSwapped, "map-key-omitted": st.mapKeyOmitted, "map-value-omitted": st.mapValOmitted, "map-dup-key": st.mapDupKey, "map-entry-extra-field": st.mapExtra, "unknown": st.unknown} {
 			if n > 0 {
 				rec.Class("op/" + name)
@@ -675,7 +675,7 @@ func TestC10(t *testing.T) {
 		mt := rapid.SampledFrom(mine).Draw(rt, "type")
 		v, _ := canon(genDyn(rt, mt.Desc, 3, genOpts{runtime: mt.Info.Runtime, requiredProb: 10, maxMap: 3}))
 		var st varStats
-		c := &BCase{Type: mt.Key(), Bytes: encodeVariant(rt, v, varOpts{unknowns: true, permute: true, mapShape: true}, &st, 0)}
+		c := &BCase{Type: mt.Key(), Bytes: encodeVariant(rt, v, varOpts{unknowns: true, permute: true, mapShape: true, explicitDefaults: true}, &st, 0)}
 		f, nt := oracleC10(c)
 		rec.Eval(1)
 		rec.Class("variant/" + mt.Info.Variant)
